@@ -29,8 +29,8 @@ def _is_model_state_target(t: ast.AST) -> bool:
     return isinstance(t, ast.Attribute) and t.attr in ("state", "_state") and isinstance(t.value, ast.Name) and t.value.id in ("model", "self")
 
 
-def r1_typestate(ctx):
-    ctx.rule("C13.R1", "the state assigned to a model is a cleaned clone (no data, no individual latent values)", 2)
+def r1_typestate(ctx, rid="C13.R1", title="the state assigned to a model is a cleaned clone (no data, no individual latent values)"):
+    ctx.rule(rid, title, 2)
     ix = ctx.ix
     stateful = ix.find_class("StatefulModel")
     n = 0
@@ -50,14 +50,14 @@ def r1_typestate(ctx):
                 an = cfg.node_of(st)
                 v = st.value
                 if not isinstance(v, ast.Name):
-                    ctx.violation("C13.R1", f, st, f"the model state is assigned `{U(v)}` - not a local clone that was cleaned")
+                    ctx.violation(rid, f, st, f"the model state is assigned `{U(v)}` - not a local clone that was cleaned")
                     continue
                 var = v.id
                 clones = [k for k in cfg.nodes(lambda s: isinstance(s, ast.Assign) and any(U(x) == var for x in s.targets)
                                                and isinstance(s.value, ast.Call) and isinstance(s.value.func, ast.Attribute) and s.value.func.attr == "clone")]
                 others = [k for k in cfg.nodes(lambda s: isinstance(s, (ast.Assign, ast.AugAssign, ast.AnnAssign)) and any(U(x) == var for x in store_targets(s))) if k not in clones]
                 if not clones or others or not all(cfg.dominates(c, an) for c in clones[:1]):
-                    ctx.violation("C13.R1", f, st, f"`{var}` assigned to the model state is not (only) the result of a `.clone(` that dominates the assignment: "
+                    ctx.violation(rid, f, st, f"`{var}` assigned to the model state is not (only) the result of a `.clone(` that dominates the assignment: "
                                   "the model would share / keep the working state of the run")
                     continue
                 cl = clones[0]
@@ -76,14 +76,14 @@ def r1_typestate(ctx):
                                                                                                   or any(k.arg == "method" and U(k.value) == "None" for k in x.keywords)))
                 r_ok = any(cfg.dominates(cl, r) and cfg.dominates(r, an) for r in reset)
                 u_ok = any(cfg.dominates(cl, u) and cfg.dominates(u, an) for u in unset)
-                ctx.check(r_ok, "C13.R1", f, st, f"`{var}` = clone, data variables reset before it becomes the model state",
+                ctx.check(r_ok, rid, f, st, f"`{var}` = clone, data variables reset before it becomes the model state",
                           f"the state `{var}` handed to the model still holds the data of the run (no `reset_data_variables({var})` between the clone and the assignment): "
                           "later calls on the same model object depend on this run", construct=f"{U(t)} = {var} [data]")
-                ctx.check(u_ok, "C13.R1", f, st, f"`{var}`: individual latent variables unset before it becomes the model state",
+                ctx.check(u_ok, rid, f, st, f"`{var}`: individual latent variables unset before it becomes the model state",
                           f"the state `{var}` handed to the model still holds the individual latent values of the run (no `{var}.put_individual_latent_variables(None)`): "
                           "e.g. a later scipy_minimize starts every subject from the first training subject's values", construct=f"{U(t)} = {var} [individual latents]")
     if n < 2:
-        raise AnalysisError("C13.R1", f"only {n} assignment(s) of a model state found outside initialisation (2 confirmed by hand: end of fit, end of MCMC personalisation)")
+        raise AnalysisError(rid, f"only {n} assignment(s) of a model state found outside initialisation (2 confirmed by hand: end of fit, end of MCMC personalisation)")
 
 
 CLONE_ONLY_ENTRIES = [
@@ -229,33 +229,45 @@ def r4_inputs(ctx, cg):
     ctx.ok("C13.R4", ("leaspy.algo.base", "<package>"), None, "no store / in-place call through settings, dataset, data or table parameters", construct="package-wide scan of stores rooted at input parameters")
 
 
-def r5_shared_defaults(ctx):
+def r5_shared_defaults(ctx, rid="C13.R5"):
     """'not on which calls were made earlier': class-level / module-level containers and mutable default arguments outlive a call and
     are shared by every algorithm / model object of the process - nothing may be written through them (directly or through an alias)."""
     from ..effects import SharedDefaults
-    ctx.rule("C13.R5", "no write through a class-level / module-level container or a mutable default argument (package-wide, through aliases)", 10)
+    ctx.rule(rid, "no write through a class-level / module-level container or a mutable default argument (package-wide, through aliases)", 10)
     sd = SharedDefaults(ctx.ix)
     cg = callgraph(ctx)
     n = 0
     for f in ctx.ix.iter_funcs():
         for node, desc in sd.writes(f) + sd.handed_over(f, cg):
             n += 1
-            ctx.violation("C13.R5", f, node, desc + ": the change outlives the call, so later calls (on any object of the process) no longer depend only on their own inputs")
+            ctx.violation(rid, f, node, desc + ": the change outlives the call, so later calls (on any object of the process) no longer depend only on their own inputs")
     # memoised methods keep, per process, an answer computed from the object's state at the first call
     for f in ctx.ix.iter_funcs():
         for d in getattr(f.node, "decorator_list", []):
             dn = U(d.func) if isinstance(d, ast.Call) else U(d)
             if dn.split(".")[-1] in ("lru_cache", "cache", "cached_property") and f.cls is not None:
-                ctx.violation("C13.R5", f, d, f"`@{dn}` memoises a method: its answer is computed from the object's state at the first call and returned unchanged afterwards, "
+                ctx.violation(rid, f, d, f"`@{dn}` memoises a method: its answer is computed from the object's state at the first call and returned unchanged afterwards, "
                               "whatever was fitted / loaded in between")
     for ck, d in sorted(sd.class_level.items()):
         for name, st in sorted(d.items()):
-            ctx.ok("C13.R5", (ck[0], ck[1]), st, f"class-level container {ck[1]}.{name}: read-only everywhere", construct=f"{ck[1]}.{name}")
+            ctx.ok(rid, (ck[0], ck[1]), st, f"class-level container {ck[1]}.{name}: read-only everywhere", construct=f"{ck[1]}.{name}")
     for mod, d in sorted(sd.module_level.items()):
         for name, st in sorted(d.items()):
-            ctx.ok("C13.R5", (mod, "<module>"), st, f"module-level container {name}: read-only everywhere", construct=f"{mod}.{name}")
+            ctx.ok(rid, (mod, "<module>"), st, f"module-level container {name}: read-only everywhere", construct=f"{mod}.{name}")
     for (ck, attr), why in sorted(sd.attr_alias.items()):
-        ctx.ok("C13.R5", (ck[0], ck[1]), None, f"self.{attr} may be bound to {why}: never written through", construct=f"alias self.{attr}")
+        ctx.ok(rid, (ck[0], ck[1]), None, f"self.{attr} may be bound to {why}: never written through", construct=f"alias self.{attr}")
+
+
+def r6_no_inplace_on_model_values(ctx):
+    """`model.parameters[...]` / `state[...]` hand out the model's own tensors (and `.numpy()`, `.detach()`, views share their memory): an
+    in-place write through them changes the model's parameters behind its back."""
+    from ._shared import inplace_on_state_values
+    ctx.rule("C13.R6", "no in-place write into a tensor obtained from the model's parameters / state (package-wide alias analysis)", 8)
+    sites, holders = inplace_on_state_values(ctx)
+    for fn, node, desc in sites:
+        ctx.violation("C13.R6", fn, node, desc + ": the call rewrites the model's own value (parameters / variables are no longer what they were before the call)")
+    for fn, names in holders:
+        ctx.ok("C13.R6", fn, fn.node, f"locals aliasing model values {names}: never written in place", construct=f"def {fn.name}")
 
 
 def _in_restoring_try(f, call) -> bool:
@@ -275,6 +287,7 @@ def rules(ctx):
     r3_mcmc_personalize(ctx, cg, sw)
     r4_inputs(ctx, cg)
     r5_shared_defaults(ctx)
+    r6_no_inplace_on_model_values(ctx)
     ctx.trust("State.clone deep-copies (C01.R5); copy.deepcopy; joblib runs each job on its own state object")
     ctx.assume("receiver types follow the annotations / naming conventions listed in sa/effects.py (NAME_TYPES)")
 
